@@ -53,7 +53,7 @@ def make_jobs(ctx):
     def job(h, defs=(), name=None, unwind=26, timeout=600):
         dd = DEFS + list(defs)
         return Job(name or 'c20_' + h, [src], entry='harness_' + h, incs=incs, defs=dd, unwind=unwind, flags=['--no-malloc-may-fail'], backends=['sat', 'kissat'],
-                   witnesses=['end'], timeout=timeout, replay=dict(sources=[src], incs=incs, defs=dd + ['-Dharness=harness_' + h], asan=True), sample={'harness': h, 'variant': list(defs)})
+                   witnesses=['end'], timeout=timeout, replay=dict(sources=[src] + [os.path.join(REPO, 'w2c2', f) for f in ('opcode.c', 'export.c', 'section.c', 'instruction.c', 'valuetype.c', 'array.c', 'reader.c', 'debug.c', 'file.c', 'sha1.c', 'compat.c')], incs=incs, defs=dd + ['-Dharness=harness_' + h], asan=True), sample={'harness': h, 'variant': list(defs)})
     jobs.append(job('clean'))
     jobs.append(job('implname'))
     for v, defs in (('posix_libgen', []), ('bundled_libgen', ['-DBUNDLED_LIBGEN'])):
